@@ -354,12 +354,37 @@ class HexGen:
             self.aim = [hb + bytes([x, x]) + fill(g) + bytes([z]) for g in (hi, hi - 1, hi + 1, lo)]
         return toks
 
+    def several_candidates(self):
+        """an alternative (so the general matcher runs) followed by a bounded jump; data with SEVERAL candidates in one scan: the first is
+        satisfied through the jump early (threads still counting the gap are abandoned), later ones have a gap below the minimum, at the
+        minimum and at the maximum -- a verification must not inherit anything from the one before it"""
+        r = self.r
+        a, b = r.choice(b"AEM"), r.choice(b"BFN")
+        run = [("b", r.choice(b"cdgh")) for _ in range(r.range(3, 4))]
+        lo = r.range(2, 4)
+        hi = lo + r.range(1, 3)
+        z = r.choice(b"DZK")
+        toks = [("alt", [[("b", a)], [("b", b)]])] + run + [("jump", lo, hi), ("b", z)]
+        if r.chance(1, 3):
+            toks = run + [("jump", lo, hi), ("alt", [[("b", z)], [("b", z + 32)]])]
+            head = bytes(t[1] for t in run)
+        else:
+            head = bytes([a]) + bytes(t[1] for t in run)
+        fill = lambda n: bytes(r.choice(b"qrstuv") for _ in range(n))
+        cand = lambda g: head + fill(g) + bytes([z])
+        self.aim = [cand(lo) + b"...." + cand(0) + b"....." + cand(max(lo - 1, 0)) + b"..." + cand(hi) + b".." + cand(hi + 1),
+                    cand(lo) + cand(1) + cand(lo) + cand(0) + cand(hi),
+                    cand(hi) + b"." + cand(lo - 1) + b"." + cand(lo)]
+        return toks
+
     def gen(self):
         k = self.r.below(12)
         if k == 0:
             return self.wild_run()
         if k == 1:
             return self.two_entry_jump()
+        if k == 2:
+            return self.several_candidates()
         return self.seq(self.r.range(1, 7), 2)
 
 
